@@ -499,13 +499,13 @@ def run(args):
     harness = []
     try:
         sizes_h = [1, 2, 3, 4, 5, 7, 16, 100, 1000, 5000] + ([20000, 40000] if quick else [20000, 30000, 40000, 50000, 65535, 65536])
-        nh = int((60 if quick else 1500) * args.scale)
+        nh = int((60 if quick else 600) * args.scale)
         hcases = []
         for k in range(nh):
             n = sizes_h[k % len(sizes_h)] if k < 2 * len(sizes_h) else rng.choice([rng.randint(1, 40), rng.randint(1, 2000), rng.randint(1, 65536) if not quick else rng.randint(1, 20000)])
             hcases.append((args.seed, k, tmpdir, n, STYLES[(k // len(sizes_h) + k) % len(STYLES)] if k < 2 * len(sizes_h) else rng.choice(STYLES)))
         sizes_t = [1, 2, 3, 5, 17, 200, 3000, 30000] + ([] if quick else [12000, 50000, 65535])
-        nt = int((24 if quick else 400) * args.scale)
+        nt = int((24 if quick else 200) * args.scale)
         tcases = []
         for k in range(nt):
             n = sizes_t[k % len(sizes_t)] if k < len(sizes_t) else rng.choice([rng.randint(1, 30), rng.randint(1, 600), rng.randint(1, 4000 if quick else 20000)])
